@@ -26,12 +26,18 @@ EXEMPT = {
 }
 
 
+CHANNEL_ERR = re.compile(r', ((async_broadcast|tokio::sync::[a-z_:]+)::(Try)?SendError<.*>)>$')
+
+
 def err_type(dest_ty):
     if not dest_ty.startswith('std::result::Result<'):
         return None
     for e in ERR_TYPES:
         if dest_ty.endswith(', ' + e + '>'):
             return e
+    m = CHANNEL_ERR.search(dest_ty)
+    if m:
+        return m.group(1)   # a failed hand-over of an item (possibly an Err item) to the consumer
     return None
 
 
